@@ -42,16 +42,21 @@ void j_crystal(Crystal_Struct *c) {
   }
   fputs("]}", OUT);
 }
-static void near_miss(const char *name, char out[4][256]) {
+#define NMISS 10
+static void near_miss(const char *name, char out[NMISS][256]) {
   snprintf(out[0], 256, "%s ", name);
   snprintf(out[1], 256, " %s", name);
   snprintf(out[2], 256, "%s", name); out[2][strlen(name) - 1] = 0;
   snprintf(out[3], 256, "%s", name); for (char *p = out[3]; *p; p++) *p = isupper((unsigned char)*p) ? tolower((unsigned char)*p) : toupper((unsigned char)*p);
+  /* respellings a lenient matcher would let through: numerically equal prefixes (leading zeros, a sign), a trailing digit, a doubled character, trailing blank space of another kind */
+  snprintf(out[4], 256, "0%s", name); snprintf(out[5], 256, "00%s", name); snprintf(out[6], 256, "+%s", name); snprintf(out[7], 256, "%s0", name);
+  { size_t l = strlen(name), m = l / 2; snprintf(out[8], 256, "%.*s%c%s", (int)m, name, name[m], name + m); }
+  snprintf(out[9], 256, "%s\t", name);
 }
 static void free_list(char **l) { if (!l) return; for (char **p = l; *p; p++) xrlFree(*p); xrlFree(l); }
 
 int cmd_c15(int argc, char **argv) {
-  xrl_error *e = NULL; int n; char **list; char nm[4][256];
+  xrl_error *e = NULL; int n; char **list; char nm[NMISS][256];
   /* ---------------- NIST compounds */
   n = -1; list = GetCompoundDataNISTList(&n, &e);
   fprintf(OUT, "{\"k\":\"cat\",\"cat\":\"nist\",\"n\":%d,\"list\":[", n);
@@ -64,7 +69,7 @@ int cmd_c15(int argc, char **argv) {
   }
   fputs("],\"byname\":[", OUT);
   for (int i = 0; i < n; i++) {
-    for (int k = -1; k < 4; k++) {
+    for (int k = -1; k < NMISS; k++) {
       const char *q = list[i]; if (k >= 0) { near_miss(list[i], nm); q = nm[k]; }
       xrl_error *e2 = NULL; struct compoundDataNIST *c = GetCompoundDataNISTByName(q, &e2);
       fprintf(OUT, "%s{\"q\":", (i || k >= 0) ? "," : ""); jstr(q); fprintf(OUT, ",\"i\":%d,\"exact\":%s,\"err\":%d,\"r\":", i, k < 0 ? "true" : "false", e2 != NULL); j_nist(c); fputc('}', OUT);
@@ -84,7 +89,7 @@ int cmd_c15(int argc, char **argv) {
   }
   fputs("],\"byname\":[", OUT);
   for (int i = 0; i < n; i++) {
-    for (int k = -1; k < 4; k++) {
+    for (int k = -1; k < NMISS; k++) {
       const char *q = list[i]; if (k >= 0) { near_miss(list[i], nm); q = nm[k]; }
       xrl_error *e2 = NULL; struct radioNuclideData *c = GetRadioNuclideDataByName(q, &e2);
       fprintf(OUT, "%s{\"q\":", (i || k >= 0) ? "," : ""); jstr(q); fprintf(OUT, ",\"i\":%d,\"exact\":%s,\"err\":%d,\"r\":", i, k < 0 ? "true" : "false", e2 != NULL); j_nuc(c); fputc('}', OUT);
@@ -112,7 +117,7 @@ int cmd_c15(int argc, char **argv) {
   for (int i = 0; list && list[i]; i++) { if (i) fputc(',', OUT); jstr(list[i]); }
   fputs("],\"byname\":[", OUT);
   for (int i = 0; i < n; i++) {
-    for (int k = -1; k < 4; k++) {
+    for (int k = -1; k < NMISS; k++) {
       const char *q = list[i]; if (k >= 0) { near_miss(list[i], nm); q = nm[k]; }
       xrl_error *e2 = NULL; Crystal_Struct *c = Crystal_GetCrystal(q, NULL, &e2);
       fprintf(OUT, "%s{\"q\":", (i || k >= 0) ? "," : ""); jstr(q); fprintf(OUT, ",\"i\":%d,\"exact\":%s,\"err\":%d,\"r\":", i, k < 0 ? "true" : "false", e2 != NULL); j_crystal(c); fputc('}', OUT);
